@@ -14,6 +14,89 @@ Record rrepr (r : breader) (secs : list (list N)) : Prop := mkRrepr {
   rr_asc : asc 0 (concat secs);
   rr_two : forall pre s post, secs = pre ++ s :: post -> post <> [] -> (2 <= length s)%nat }.
 
+Lemma enc_len_split p done x rest :
+  length (enc_deltas p (done ++ x :: rest)) =
+  (length (enc_deltas p (done ++ [x])) + length (enc_deltas x rest))%nat.
+Proof. rewrite !enc_deltas_app, !app_length. cbn [enc_deltas]. rewrite !app_length. cbn [length]. lia. Qed.
+
+Lemma enc_len_pos p l : l <> [] -> (1 <= length (enc_deltas p l))%nat.
+Proof. intros H. pose proof (enc_deltas_len_ge p l). destruct l; [contradiction|]. cbn [length] in *. lia. Qed.
+
+(* ---- sort.Search ---- *)
+Lemma search_go_spec (f : nat -> res (bool * bool)) (p : nat -> bool) : forall fuel i j e,
+  (forall h, (i <= h < j)%nat -> f h = Ok (p h, false)) ->
+  (forall h h', (i <= h <= h')%nat -> (h' < j)%nat -> p h = true -> p h' = true) ->
+  (j - i < fuel)%nat -> (i <= j)%nat ->
+  exists k, search_go fuel f i j e = Ok (k, e) /\ (i <= k <= j)%nat /\
+            (forall h, (i <= h < k)%nat -> p h = false) /\ (forall h, (k <= h < j)%nat -> p h = true).
+Proof.
+  induction fuel as [|fuel IH]; intros i j e Hf Hm Hfu Hij; [lia|].
+  cbn [search_go]. destruct (Nat.ltb_spec i j) as [Hlt|Hge].
+  - pose proof (Nat.div2_div (i + j)) as Hd. set (h := Nat.div2 (i + j)) in *.
+    assert (Hh : (i <= h < j)%nat) by (rewrite Hd; split; [apply Nat.div_le_lower_bound; lia|apply Nat.div_lt_upper_bound; lia]).
+    rewrite (Hf h Hh). cbn [bind]. rewrite orb_false_r. destruct (p h) eqn:Ep.
+    + destruct (IH i h e) as (k & Hk & Hr & H1 & H2); [intros; apply Hf; lia|intros; eapply Hm; eauto; lia|lia|lia|].
+      exists k. split; [exact Hk|]. split; [lia|]. split; [exact H1|].
+      intros h' Hh'. destruct (Nat.lt_ge_cases h' h); [apply H2; lia|]. apply (Hm h h'); [lia|lia|exact Ep].
+    + destruct (IH (S h) j e) as (k & Hk & Hr & H1 & H2); [intros; apply Hf; lia|intros; eapply Hm; eauto; lia|lia|lia|].
+      exists k. split; [exact Hk|]. split; [lia|]. split; [|exact H2].
+      intros h' Hh'. destruct (Nat.lt_ge_cases h h'); [apply H1; lia|].
+      destruct (p h') eqn:Ep'; [|reflexivity]. rewrite (Hm h' h) in Ep; [discriminate|lia|lia|exact Ep'].
+  - exists i. split; [reflexivity|]. split; [lia|]. split; intros; lia.
+Qed.
+
+(* first id above q in a run, with the ids before it *)
+Fixpoint split_gt (q : N) (l : list N) : option (list N * N) :=
+  match l with
+  | [] => None
+  | x :: r => if q <? x then Some ([], x)
+              else match split_gt q r with Some (l1, y) => Some (x :: l1, y) | None => None end
+  end.
+
+Lemma split_gt_found q l1 x l2 :
+  (forall y, In y l1 -> y <= q) -> q < x -> split_gt q (l1 ++ x :: l2) = Some (l1, x).
+Proof.
+  induction l1 as [|a l1 IH]; intros Hl Hx; cbn [app split_gt].
+  - replace (q <? x) with true by (symmetry; apply N.ltb_lt; exact Hx). reflexivity.
+  - replace (q <? a) with false by (symmetry; apply N.ltb_ge; apply Hl; left; reflexivity).
+    rewrite IH; [reflexivity| |exact Hx]. intros y Hy. apply Hl. right. exact Hy.
+Qed.
+
+Lemma split_gt_none q l : (forall y, In y l -> y <= q) -> split_gt q l = None.
+Proof.
+  induction l as [|a l IH]; intros Hl; [reflexivity|]. cbn [split_gt].
+  replace (q <? a) with false by (symmetry; apply N.ltb_ge; apply Hl; left; reflexivity).
+  rewrite IH; [reflexivity|]. intros y Hy. apply Hl. right. exact Hy.
+Qed.
+
+(* the section scan of seekGT *)
+Lemma seek_loop_spec start q : forall l fuel limit pos prev tail,
+  asc prev l -> prev < two64 -> (start <= pos)%nat -> (pos = start -> prev = 0) ->
+  limit = (pos + length (enc_deltas prev l))%nat -> (length l < fuel)%nat ->
+  seek_loop fuel start limit q pos (enc_deltas prev l ++ tail) prev =
+  Ok (match split_gt q l with
+      | None => SNotFound
+      | Some (l1, x) => SFound (pos + length (enc_deltas prev (l1 ++ [x])))%nat x
+      end).
+Proof.
+  induction l as [|x l IH]; intros fuel limit pos prev tail Ha Hp Hs Hst Hl Hf.
+  - destruct fuel; [cbn in Hf; lia|]. cbn [seek_loop enc_deltas length split_gt] in *.
+    replace (Nat.ltb pos limit) with false by (symmetry; apply Nat.ltb_ge; lia). reflexivity.
+  - destruct Ha as (H1 & H2 & H3). destruct fuel as [|fuel]; [cbn in Hf; lia|].
+    cbn [seek_loop enc_deltas split_gt] in *. rewrite app_length in Hl.
+    pose proof (put_uvarint_nonempty (x - prev)) as Hne.
+    replace (Nat.ltb pos limit) with true by (symmetry; apply Nat.ltb_lt; lia).
+    rewrite <- app_assoc, uvarint_put by lia.
+    assert (Hv : (if Nat.eqb pos start then x - prev else wrap64 (prev + (x - prev))) = x).
+    { destruct (Nat.eqb_spec pos start) as [E|E]; [rewrite (Hst E); lia|]. rewrite wrap64_small by lia. lia. }
+    rewrite Hv. destruct (q <? x) eqn:Eq.
+    + cbn [app enc_deltas]. rewrite app_nil_r. reflexivity.
+    + rewrite skipn_len_app. rewrite (IH fuel limit); try assumption; try lia.
+      2:{ cbn [length] in Hf. lia. }
+      destruct (split_gt q l) as [[l1 y]|]; [|reflexivity].
+      cbn [app enc_deltas]. rewrite !app_length. f_equal. f_equal. lia.
+Qed.
+
 Section Reader.
 Variables (r : breader) (secs : list (list N)).
 Hypothesis R : rrepr r secs.
@@ -62,14 +145,6 @@ Proof.
     rewrite offs_nth, enc_secs_snoc, app_length. reflexivity.
 Qed.
 
-Lemma enc_secs_post_ne post : (exists pre s, secs = pre ++ s :: post) -> post <> [] -> enc_secs post <> [].
-Proof.
-  intros (pre & s & E) Hne. destruct post as [|s2 post]; [contradiction|].
-  assert (E2 : secs = (pre ++ [s]) ++ s2 :: post) by (rewrite <- app_assoc; exact E).
-  destruct (sec_asc _ _ _ E2) as [H2 _]. rewrite enc_secs_cons. intros H.
-  apply app_eq_nil in H. destruct H as [H _]. exact (enc_deltas_ne 0 s2 H2 H).
-Qed.
-
 (* ---- iterator position ---- *)
 Definition at_pos (it : biter) (pre : list (list N)) (done rest : list N) : Prop :=
   rest <> [] /\ bi_exh it = false /\ bi_err it = None /\
@@ -88,10 +163,12 @@ Definition it_after (it : biter) (bef aft : list N) : Prop :=
 Lemma it_after_reset : secs <> [] -> it_after (bi_reset r) [] (concat secs).
 Proof.
   intros Hne. split; [reflexivity|]. right.
-  destruct secs as [|s0 post] eqn:E; [contradiction|].
-  exists [], [], s0, post. split; [reflexivity|].
-  destruct (sec_asc [] s0 post) as [Hs0 _]; [rewrite E; reflexivity|].
-  split; [|split; reflexivity].
+  assert (Hex : exists s0 post, secs = s0 :: post).
+  { clear R. destruct secs as [|s0 post]; [contradiction|]. eauto. }
+  destruct Hex as (s0 & post & E).
+  exists [], [], s0, post. split; [exact E|].
+  destruct (sec_asc [] s0 post) as [Hs0 _]; [exact E|].
+  split; [|split; [reflexivity|rewrite E; reflexivity]].
   split; [exact Hs0|]. split.
   - unfold bi_reset. rewrite (rr_data _ _ R), (rr_rs _ _ R), E. cbn [bi_exh offs].
     rewrite enc_secs_cons. destruct (enc_deltas 0%N s0 ++ enc_secs post) eqn:Ed; [|reflexivity].
@@ -122,7 +199,7 @@ Proof.
            pose proof (enc_deltas_ne 0 s2 Hs2) as Hn. rewrite enc_secs_cons, app_length.
            destruct (enc_deltas 0%N s2); [contradiction|]. cbn [length enc_deltas]. lia.
         -- left. unfold bi_set. cbn [bi_ptr]. rewrite (Hr2 eq_refl) by discriminate.
-           rewrite enc_secs_snoc, !app_length. cbn [enc_deltas length]. f_equal. f_equal. lia.
+           rewrite enc_secs_snoc, !app_length. cbn [enc_deltas length]. f_equal. f_equal; lia.
       * rewrite concat_app. cbn [concat]. rewrite !app_nil_r. reflexivity.
       * reflexivity.
   - right. exists pre, done, (x :: rest), post. split; [exact E|]. split; [|split; reflexivity].
@@ -178,16 +255,16 @@ Proof.
     with (length (enc_secs pre) + length (enc_deltas 0%N (done ++ [x])))%nat by lia.
   replace x with (last (done ++ [x]) 0) at 2 by apply last_snoc.
   replace (bef ++ [x]) with (concat pre ++ done ++ [x]) by (rewrite Hbef, app_assoc; reflexivity).
-  apply set_after; try assumption.
+  apply set_after.
+  - exact E'.
   - apply snoc_ne.
+  - reflexivity.
   - intros Hr. destruct post; [reflexivity|].
     match goal with |- context [N.eqb ?a ?b] => destruct (N.eqb_spec a b) as [Eq|_]; [|reflexivity] end.
-    exfalso. rewrite enc_deltas_app, !app_length in Eq.
-    pose proof (enc_deltas_ne (last done 0%N) (x :: rest)) as Hn1. cbn [enc_deltas] in Eq. rewrite app_length in Eq.
-    pose proof (enc_deltas_ne x rest Hr) as Hn2. destruct (enc_deltas x rest); [contradiction|]. cbn [length] in Eq. lia.
+    exfalso. rewrite (enc_len_split 0 done x rest) in Eq. pose proof (enc_len_pos x rest Hr). lia.
   - intros -> Hp. destruct post; [contradiction|].
     match goal with |- context [N.eqb ?a ?b] => destruct (N.eqb_spec a b) as [_|Eq]; [reflexivity|] end.
-    exfalso. apply Eq. rewrite enc_deltas_app, !app_length. cbn [enc_deltas]. rewrite app_nil_r. f_equal. lia.
+    exfalso. apply Eq. rewrite (enc_len_split 0 done x []). cbn [enc_deltas length]. lia.
 Qed.
 
 Lemma next_end it bef : it_after it bef [] -> bi_next r it = Ok (it, false).
